@@ -1,6 +1,21 @@
 (* C15 correspondence: cases as printed by harness/c15. *)
 From Verif Require Export Lib.Base Lib.JobTab Model.C15_Sync Model.C15_Hist.
 
+(* The job list of the scheduler as the harness prints it: maximal runs of jobs of one kind for
+   consecutive slots whose times advance by a constant step, (kind, first slot, count, time of the
+   first, step).  Lossless: [expand_runs] gives back the list (kind, slot, time) in the order
+   recorded (by slot, then kind); the harness checks the round trip before printing. *)
+Definition jobrun := (N * N * N * Z * Z)%type.
+
+Fixpoint expand_run (k s : N) (n : nat) (t dt : Z) : list job :=
+  match n with
+  | O => []
+  | S n' => (k, s, t) :: expand_run k (s + 1) n' (t + dt)%Z dt
+  end.
+
+Definition expand_runs (l : list jobrun) : list job :=
+  flat_map (fun r => let '(k, s, n, t, dt) := r in expand_run k s (N.to_nat n) t dt) l.
+
 Record case := {
   c_id : N;
   c_par : params;
@@ -10,8 +25,13 @@ Record case := {
   c_fouts : list fire_out;            (* OBSERVED: one per fired slot *)
   c_agg : option (agg_in * option (list contrib));  (* a direct Aggregate call: input, OBSERVED submission *)
   c_hist : list hop;                  (* a history on one controller and one scheduler: calls, refreshes, fired slots *)
-  c_hobs : list (list job * option fire_out)   (* OBSERVED after each operation: the scheduler's job list; what a fired slot did *)
+  c_hruns : list (list jobrun * option fire_out)   (* OBSERVED after each operation: the scheduler's job list
+                                         (run-length encoded by the harness, see [expand_runs]); what a fired slot did *)
 }.
+
+(* OBSERVED after each operation of the history: the scheduler's job list, and what a fired slot did *)
+Definition c_hobs (c : case) : list (list job * option fire_out) :=
+  map (fun x => (expand_runs (fst x), snd x)) (c_hruns c).
 
 (* ---------------------------------------------------------------------------------------------- *)
 (* equality of observables *)
